@@ -4,6 +4,16 @@ import json, subprocess
 BASE = json.load(open('/root/.vp/BASELINE.json'))
 ENV = "env -u GOWORK GOFLAGS=-mod=mod GOPROXY=off GOSUMDB=off GOTOOLCHAIN=local"
 CLAIMED = {
+ "C02": dict(
+   technique="static analysis: interprocedural origin/effect (ownership) analysis over go/ssa with a closed contract table for gorgonia",
+   text="Every instruction of the library that writes storage (contract-declared mutators such as Reshape/SetAt/Zero/T and WithReuse/UseUnsafe options, element stores through Shape()/Data() slices, append/copy/sort, map updates, field stores) is enumerated, and an interprocedural origin analysis decides for each whether the written storage can originate from a caller tensor, a model weight, the protobuf or a package variable; package-level state must not be written outside initialisers. History can only travel through such state, so closing every write closes every history. Tests cannot see this because they never call Run twice or look at an input after the call.",
+   note="Level 'other': sound modulo the contract table for gorgonia/protobuf/stdlib in checker/contracts.go (unknown externals that receive a non-owned reference make the check undecided, never pass). Context-insensitive, field-based. Not decided: bit-for-bit equality of results (needs gorgonia's determinism, assumed); outputs that alias inputs/weights are not mutations by Run.",
+   ref="DESIGN.md §3.2 E2, §4 R1 R3, §5 C02"),
+ "C17": dict(
+   technique="static analysis: effect analysis restricted to shared roots (weights, protobuf, package variables) + absence of goroutines/locks/unsafe",
+   text="Race freedom is decided as an effect property: two concurrent Runs share only the weight tensors, the protobuf and package variables; the origin/effect engine shows that no reachable instruction writes storage with one of those origins and that no package variable is written after initialisation, and the library contains no go statement, lock or unsafe import. Without a conflicting access pair in library code there is no data race, for every schedule - which no finite set of interleavings can establish.",
+   note="Level 'other'. Trusted: gorgonia and protobuf-go internals (pools are sync.Pool; getters are reads), the contract table. Each Run's result being a function of its own inputs is C02.",
+   ref="DESIGN.md §4 R1 R3, §5 C17"),
  "C15": dict(
    technique="static analysis: exhaustive table evaluation over the operator registry (go/types AST evaluation + go/ssa dominance checks)",
    text="Every registered operator (55) is enumerated from the type-checked program; its arity getters and dtype-constraint table are evaluated statically and checked for the relations the generic gate relies on (0<=min<=max, len(constraints)>=max, delegation, constant input indices < max, nil-guards on optional inputs), the generic gate's own stage order and counter semantics are checked on its SSA form, and the registry/constructor/getter are checked for completeness, freshness and the unsupported-operator miss path. The instance space is finite and walked completely, which is why a table rule is the right level: the property quantifies over 55 x arity x dtype combinations that tests only sample.",
